@@ -4,6 +4,7 @@ package c05
 
 import (
 	"bytes"
+	"encoding/hex"
 	"fmt"
 	"io"
 	"slices"
@@ -29,7 +30,11 @@ type helloCase struct {
 	extNames []string
 }
 
-var poolNames = []string{"sni", "alpn", "sv13", "sv12+13", "sv12", "grease-ext", "unknown-empty", "padding512", "ech-unknown-id", "ech-known-id-garbage", "sv10-12", "alpn-long", "sni-mixed-case"}
+var poolNames = []string{"sni", "alpn", "sv13", "sv12+13", "sv12", "grease-ext", "unknown-empty", "padding512", "ech-unknown-id", "ech-known-id-garbage", "sv10-12", "alpn-long", "sni-mixed-case",
+	// not part of the ordered-selection product (dedicated family below): ECH extensions naming a HELD config id whose encapsulated key cannot be used
+	"ech-known-id-enc31", "ech-known-id-enc33", "ech-known-id-enc65", "ech-known-id-enc-zero32", "ech-known-id-enc-low-order"}
+
+const productPool = 13
 
 func poolExt(i int) tlsref.Ext {
 	switch i {
@@ -59,12 +64,23 @@ func poolExt(i int) tlsref.Ext {
 		return tlsref.ALPN("a", string(bytes.Repeat([]byte("p"), 255)), "h3")
 	case 12:
 		return tlsref.SNI("MiXed.Example.ORG")
+	case 13:
+		return tlsref.ECHOuter(1, 1, 42, tlsref.DetBytes("enc31", 31), tlsref.DetBytes("garbage-payload", 150))
+	case 14:
+		return tlsref.ECHOuter(1, 1, 42, tlsref.DetBytes("enc33", 33), tlsref.DetBytes("garbage-payload", 150))
+	case 15:
+		return tlsref.ECHOuter(1, 1, 42, tlsref.DetBytes("enc65", 65), tlsref.DetBytes("garbage-payload", 150))
+	case 16:
+		return tlsref.ECHOuter(1, 1, 42, make([]byte, 32), tlsref.DetBytes("garbage-payload", 150))
+	case 17:
+		lo, _ := hex.DecodeString("e0eb7a7c3b41b8ae1656e3faf19fc46ada098deb9c32b1fd866205165f49b800")
+		return tlsref.ECHOuter(1, 1, 42, lo, tlsref.DetBytes("garbage-payload", 150))
 	}
 	panic("pool")
 }
 
 func isSV(i int) bool  { return i == 2 || i == 3 || i == 4 || i == 10 }
-func isECH(i int) bool { return i == 8 || i == 9 }
+func isECH(i int) bool { return i == 8 || i == 9 || i >= 13 }
 func isALPN(i int) bool {
 	return i == 1 || i == 11
 }
@@ -144,7 +160,7 @@ func kindOf(c helloCase) string {
 }
 
 func Run(r *ev.Run) {
-	r.Rule("E1 exhaustive: ClientHellos = legacy_version{0x0301,0x0303} x session id{0,32} x cipher-suite lists{1,3,150 incl. GREASE} x compression{[0],[1,0]} x every ordered selection of <=k extensions from a 13-item pool (SNI lower-/mixed-case, 2 ALPN lists, 4 supported_versions lists incl. TLS1.2-only/1.0-1.2, GREASE ext, unknown empty ext, 300-byte padding, ECH outer with unknown id, ECH outer with known id and garbage payload; at most one of each kind) plus 'empty block' and 'no extensions block at all' x key sets{none, unrelated id, same id}; k=3 quick (full product) / k=4 thorough; plus following-stream family: record sequences over {CCS, handshake, alert, app-data} with lengths {0,1,16384,16640} after the hello, and backend->client bytes. distinct = distinct (stream,key set)")
+	r.Rule("E1 exhaustive: ClientHellos = legacy_version{0x0301,0x0303} x session id{0,32} x cipher-suite lists{1,3,150 incl. GREASE} x compression{[0],[1,0]} x every ordered selection of <=k extensions from a 13-item pool (SNI lower-/mixed-case, 2 ALPN lists, 4 supported_versions lists incl. TLS1.2-only/1.0-1.2, GREASE ext, unknown empty ext, 300-byte padding, ECH outer with unknown id, ECH outer with known id and garbage payload; at most one of each kind; plus a family of ECH extensions naming a held id with an unusable encapsulated key: 31/33/65 bytes, all-zero, low-order point) plus 'empty block' and 'no extensions block at all' x key sets{none, unrelated id, same id}; k=3 quick (full product) / k=4 thorough; plus following-stream family: record sequences over {CCS, handshake, alert, app-data} with lengths {0,1,16384,16640} after the hello, and backend->client bytes. distinct = distinct (stream,key set)")
 	r.Assume("crypto/tls is the independent extractor of SNI/ALPN (compared only when it parses the hello)", "SNI entries use name_type 0 and ALPN names are non-empty")
 	ks := keySets()
 	maxExt := 3
@@ -158,7 +174,7 @@ func Run(r *ev.Run) {
 		if len(cur) == maxExt {
 			return
 		}
-		for i := range poolNames {
+		for i := 0; i < productPool; i++ {
 			if slices.Contains(cur, i) {
 				continue
 			}
@@ -190,6 +206,18 @@ func Run(r *ev.Run) {
 			r.Sample(map[string]any{"case": c, "hello": echx.Hex(c.build().Record())})
 		}
 	})
+
+	// ---- ECH extensions that name a held config id but whose encapsulated key cannot be used (wrong length, all-zero,
+	// low-order point): an undecryptable payload like any other, at every position, with and without TLS 1.3 ----
+	for x := productPool; x < len(poolNames); x++ {
+		for _, exts := range [][]int{{0, 2, x}, {x, 0, 2}, {0, x, 2}, {x}, {0, 1, 3, x, 5}, {12, x, 4}} {
+			for ksi := range ks {
+				for _, ver := range []uint16{0x0301, 0x0303} {
+					evalHello(r, helloCase{Version: ver, SID: 32, Exts: exts, KeySet: ksi}, ks, nil, "unusable-enc")
+				}
+			}
+		}
+	}
 
 	// ---- hellos that do not offer TLS 1.3 but carry an AUTHENTIC ECH payload for a held key: pass-through required ----
 	{
@@ -268,7 +296,9 @@ func Run(r *ev.Run) {
 		}
 		var frs []fr
 		msg := small.Msg()
-		for _, cuts := range [][]int{{1}, {3}, {4}, {5}, {38}, {len(msg) - 1}, {2, 4}, {10, 20, 30, 40}} {
+		for _, cuts := range [][]int{{1}, {3}, {4}, {5}, {38}, {len(msg) - 1}, {2, 4}, {10, 20, 30, 40},
+			// three and more records whose last fragment is only a few bytes long
+			{10, len(msg) - 3}, {10, len(msg) - 5}, {10, 20, len(msg) - 7}, {10, 20, 30, len(msg) - 12}, {1, 2, 3, 4, 5, 6, 7, 8, len(msg) - 1}, {len(msg) - 3, len(msg) - 2, len(msg) - 1}} {
 			frs = append(frs, fr{fmt.Sprintf("small%v", cuts), tlsref.Fragment(0x0301, msg, cuts...), small})
 		}
 		frs = append(frs, fr{"big-at-16384", tlsref.FragmentMax(0x0301, big.Msg()), big}, fr{"big-uneven", tlsref.Fragment(0x0301, big.Msg(), 1000, 17000, 17001, 33000), big})
